@@ -20,6 +20,7 @@ CARRIERS = {
     'ifblock': 'if a:\n    x = f(1)  # c\n    y = 2\nz = 3\n',
     'elif': 'if a:\n    p\nelif b:\n    q\nelse:\n    r\n',
     'semi': 'a = 1; b = 2\nc = 3\n',
+    'semi_multi': 'x = [1,\n     2]; y = 3\nz = 4\n',
     'tryexc': 'try:\n    a\nexcept E as e:\n    b\nfinally:\n    c\n',
     'def': 'def f(a, b=1):\n    """d"""\n    return a\nx = f(1)\n',
     'uni': 'é = "ñ"; y = é\nif é:\n    z = "𝒳"  # ç\n',
@@ -174,11 +175,11 @@ def _mk_rawput(key):
 FNR = ['fst.fst.FST.put_src', 'fst.fst_raw._reparse_raw', 'fst.fst_raw._reparse_raw_stmtlike', 'fst.fst_raw._reparse_raw_base', 'fst.fst_misc.clip_src_loc',
        'fst.fst.FST.find_contains_loc', 'fst.fst_core._put_src', 'fst.fst_core._offset', 'fst.fst_core._set_ast']
 CELLS = []
-_Q = {('semi', 3), ('uni2', 2), ('semi', 0)}
+_Q = {('semi', 3), ('uni2', 2), ('semi', 0), ('semi_multi', 5)}
 for _k in CARRIERS:
     _nl = len(CARRIERS[_k].split('\n'))
     for _ti in range(len(TEXTS)):
-        if (_k, _ti) not in _Q and not (TEXTS[_ti] in ('', ' ', '\n', 'if q:', 'pass\n', '# k', 'u = 0\n    ') and _k in ('ifblock', 'elif', 'semi', 'tryexc', 'uni', 'uni2', 'match')
+        if (_k, _ti) not in _Q and not (TEXTS[_ti] in ('', ' ', '\n', 'if q:', 'pass\n', '# k', 'u = 0\n    ') and _k in ('ifblock', 'elif', 'semi', 'semi_multi', 'tryexc', 'uni', 'uni2', 'match')
                                         or TEXTS[_ti] in ('', '\n') and _k in ('cls', 'with', 'def')):
             continue      # sized out of the thorough tier (all 108 carrier x text pairs were swept concretely at build time: 115,464 rectangles, see DESIGN.md)
         _parts = ['reversed'] + [(a_, b_) for a_ in range(_nl) for b_ in range(a_, _nl)]
